@@ -27,7 +27,7 @@ ASSUMPTIONS = ['pysam BAM writing/reading is the storage; its own refusal of nam
                'expected field values come from the raw reads through the hand-written layout table and the independent 52-letter code']
 MIN_NONTRIVIAL = {'quick': 300, 'thorough': 30000}
 REQUIRED_MONITORS = ['totality:single_chars', 'totality:pairs', 'roundtrip:reads_decoded', 'roundtrip:fields_compared',
-                     'length:refused_loudly', 'length:stored_exactly', 'history:fitting_then_overlong_in_one_library', 'roundtrip:cell_index_zero', 'roundtrip:mates_digested_separately', 'roundtrip:alignment_with_preexisting_fields', 'roundtrip:umi_from_an_earlier_demultiplexing_run']
+                     'length:refused_loudly', 'length:stored_exactly', 'history:fitting_then_overlong_in_one_library', 'roundtrip:cell_index_zero', 'roundtrip:mates_digested_separately', 'roundtrip:alignment_with_preexisting_fields', 'roundtrip:umi_from_an_earlier_demultiplexing_run', 'roundtrip:numeric_index_with_leading_zeros']
 SHARD_TIMEOUT = {'quick': 600, 'thorough': 3600}
 PHRED_TAGS = {'QX', 'QT', 'RQ', 'BZ', 'QM', 'lq', 'aQ', 'AQ', 'E2', 'EQ', 'eq', 'is', 'H1', 'H3'}
 
@@ -143,6 +143,9 @@ def run_library(acc, d, dmx, strategy, name, wl, iwl, r, lib, n, single, case_id
         index_seq = r.choice([b for b, _ in iwl[fq.INDEX_ALIAS]])
         if hk == 'illumina_numeric':
             index_seq = str(r.randint(1, 96))
+            if r.random() < 0.4:
+                index_seq = r.choice(['007', '01', '0012', '00'])      # a sample number written with leading zeros is a text like any other
+                acc.count('roundtrip:numeric_index_with_leading_zeros')
         base_kind = hk if hk in ('scmo', 'scmo_umi', '3dec') else 'illumina'
         wl_here = wl.get(lay['alias'], [])
         if i == 0 and any(ix == 0 for _, ix in wl_here):
